@@ -110,7 +110,11 @@ def impl_ctor(D, p, h):
     from moptipyapps.order1d.instance import Instance
     n = len(D)
     try:
-        inst = Instance(np.array(D), p, h, ("t",), [((str(i),), i) for i in range(n)])
+        a = np.array(D)
+        if a.ndim == 2 and a.size and a.dtype.kind in "iuf":     # same values in Fortran order / as a transposed view, by turns
+            k = (int(abs(a).sum()) + n) % 3
+            a = np.asfortranarray(a) if k == 1 else (a.T.copy().T if k == 2 else a)
+        inst = Instance(a, p, h, ("t",), [((str(i),), i) for i in range(n)])
     except (ValueError, OverflowError, TypeError):
         return None, "ERR"
     except IndexError:
